@@ -29,7 +29,8 @@ SENSITIVE = {'arctan', 'arcsin'}
 MIN_COUNTERS = dict(quick={'asserted_elements': 1500, 'nontrivial_elements': 400, 'n0_bit_identity_asserted': 100,
                            'complex_valued_asserted': 40, 'array_cases': 300, 'user_step_generator_cases': 500},
                     thorough={'asserted_elements': 60000})
-RULE = ('random expression programs (depth <= 4 over {+,-,*,/,integer and real powers, exp, log, sqrt, sin, cos, tan, sinh, '
+RULE = ('Input classes and histories: x as float / int / list / tuple / 0-d array / numpy scalar, stationary points (exact derivative 0), a step generator instance already used by another object, step generators with their own default base step; a regression corpus (inputs of repaired defects and witnesses of the listed findings) in shard 0. ' 
+        'random expression programs (depth <= 4 over {+,-,*,/,integer and real powers, exp, log, sqrt, sin, cos, tan, sinh, '
         'cosh, tanh, arctan, arcsin, arcsinh, arctanh, expm1, log1p}) plus hostile templates (internal cancellation, near-pole, '
         'large argument, negative-base powers, expm1**2, log1p chains), points with |x| in [1e-3, 1e2] of both signs, scalars '
         'and arrays; every (method, n <= nmax, order 1..8) cell visited; 30 % user step specifications. A case is asserted '
